@@ -18,12 +18,253 @@ import json
 
 from . import lib
 from . import scope_gen as G
+from . import scope_ref as R
 
 RULE = ("undeclared: statement trees (C03 generator, size <= 12 / 25, all constructs) x 2 data assignments; distinct = "
         "(source, data); non-trivial = at least one context lookup happened and at least one name of the template is "
         "NOT looked up (bound by the template). referenced: one reference node per template, kinds extends / include / "
         "import / from-import x name forms {constant, list, tuple, conditional, dynamic, non-string, constant tuple "
         "(AST)} x data; non-trivial = at least one loader request.")
+
+RULE += (" Round 7: (a) statement trees over the extended C03 syntax (tuple targets, recursive loops, break / continue, "
+         "filtered block sets) on render arguments of many Python kinds, oracle only; (b) template SETS of the shared "
+         "generator (extends + blocks + super, include with / without context / ignore missing / lists, import / from "
+         "import with / without context, macros, call blocks, filters, tests, subscripts, conditional expressions, "
+         "plus trans / do / debug / loop controls snippets and dynamic include names), rendered under the configurations "
+         "sync / async / sandboxed / unoptimized / autoescape / overlay / bytecode cache, each environment used for a "
+         "second render on other data (template cache warm): every recorded lookup must be reported for the template "
+         "whose context did it (for the whole inheritance chain when the set uses extends), every loader request must be "
+         "reported by some template of the set or None must be.")
+
+SET_CONFIGS = ["sync", "async", "sandbox", "unoptimized", "autoescape", "overlay", "bccache", "async_sandbox"]
+SET_EXTS = ["jinja2.ext.i18n", "jinja2.ext.do", "jinja2.ext.loopcontrols", "jinja2.ext.debug"]
+SNIPPETS = [
+    "{% trans %}T {{ a }} and {{ b }}{% endtrans %}",
+    "{% trans n=c|default(1)|int %}one {{ x }}{% pluralize %}{{ n }} of {{ y }}{% endtrans %}",
+    "{% trans u=x|string %}U {{ u }} {{ y }}{% endtrans %}",
+    "{% do [a, y] %}",
+    "{% for q in [1, 2, 3] %}{% if q == b %}{% break %}{% endif %}{{ q }}{% if x %}{% continue %}{% endif %}{{ y }}{% endfor %}",
+    "{% for q, w in [(1, a), (2, c)] %}{{ q }}{{ w }}{% endfor %}",
+    "{% for q in [[1, [2]], [3]] recursive %}{% if q is iterable %}{{ loop(q) }}{% else %}{{ q }}{{ c }}{% endif %}{% endfor %}",
+    "{% set q | default(y) %}{{ x }}{% endset %}{{ q }}",
+    "{% set ns = namespace(v=a) %}{% for q in [1] %}{% set ns.v = b %}{% endfor %}{{ ns.v }}",
+    "{% for q in a %}{{ q }}{% else %}no {{ loop }}{% endfor %}",
+    "{% for q in [1, 2] if loop %}{{ q }}{% endfor %}{{ loop }}",
+    "{{ varargs }}{{ kwargs }}{{ caller }}",
+    "{% macro sp() %}{{ loop }}{{ super }}{% endmacro %}{{ sp() }}",
+    "{% include dyn ignore missing %}",
+    "{% include [dyn, 'nope.html'] ignore missing %}",
+    "{% include ('inc1.html' if a else dyn) ignore missing %}",
+    "{% macro mm(p, q=x) %}{{ p }}{{ q }}{{ y }}{{ caller() if caller else '' }}{% endmacro %}{% call mm(a) %}{{ b }}{% endcall %}",
+    "{{ [q for q in []] if false else a }}" if False else "{{ (a if b else c) }}",
+    "{{ self }}"[:0] + "{% with a = y, q = a %}{{ a }}{{ q }}{% endwith %}",
+]
+
+
+SPECIAL = ["loop", "caller", "kwargs", "varargs", "super", "self"]
+CONTAINERS = [
+    ("{% set w0 %}", "{% endset %}{{ w0 }}"),
+    ("{% set w0 | upper %}", "{% endset %}{{ w0 }}"),
+    ("{% autoescape true %}", "{% endautoescape %}"),
+    ("{% autoescape false %}", "{% endautoescape %}"),
+    ("{% filter upper %}", "{% endfilter %}"),
+    ("{% with %}", "{% endwith %}"),
+    ("{% with w0 = 1 %}", "{% endwith %}"),
+    ("{% if true %}", "{% endif %}"),
+    ("{% if false %}{% else %}", "{% endif %}"),
+    ("{% for w0 in [1] %}", "{% endfor %}"),
+    ("{% for w0 in [] %}{% else %}", "{% endfor %}"),
+    ("{% macro w0() %}", "{% endmacro %}{{ w0() }}"),
+    ("{% macro w1() %}{{ caller() }}{% endmacro %}{% call w1() %}", "{% endcall %}"),
+]
+
+
+def wrap(rng, src):
+    """the whole template body inside 1-2 randomly chosen statement containers"""
+    for _ in range(rng.randint(1, 2)):
+        a, b = rng.choice(CONTAINERS)
+        src = a + src + b
+    return src
+
+
+def set_env(jinja2, cfg, templates, lookups, requests):
+    from jinja2.runtime import Context
+    from jinja2.sandbox import SandboxedEnvironment
+
+    class RecLoader(jinja2.DictLoader):
+        def get_source(self, environment, template):
+            requests.append(template)
+            return super().get_source(environment, template)
+
+    class RecContext(Context):
+        def resolve_or_missing(self, key):
+            lookups.append((self.name, key))
+            return super().resolve_or_missing(key)
+
+    kw = dict(loader=RecLoader(templates), extensions=SET_EXTS)
+    if cfg in ("async", "async_sandbox"):
+        kw["enable_async"] = True
+    if cfg == "unoptimized":
+        kw["optimized"] = False
+    if cfg == "autoescape":
+        kw["autoescape"] = True
+    if cfg == "bccache":
+        from jinja2.bccache import BytecodeCache
+
+        class DictBC(BytecodeCache):
+            store = {}
+
+            def load_bytecode(self, bucket):
+                if bucket.key in self.store:
+                    bucket.bytecode_from_string(self.store[bucket.key])
+
+            def dump_bytecode(self, bucket):
+                self.store[bucket.key] = bucket.bytecode_to_string()
+        DictBC.store = {}
+        kw["bytecode_cache"] = DictBC()
+    env = (SandboxedEnvironment if "sandbox" in cfg else jinja2.Environment)(**kw)
+    env.context_class = RecContext
+    if cfg == "overlay":
+        env = env.overlay(cache_size=7, optimized=False)
+    env.install_null_translations(newstyle=cfg in ("async", "autoescape"))
+    return env
+
+
+def exotic(rng, d):
+    """some render arguments of other Python kinds"""
+    for k in list(d):
+        j = rng.random()
+        if j < 0.06:
+            d[k] = R.make_value(("markup", "<m>"))
+        elif j < 0.12:
+            d[k] = tuple(d[k]) if isinstance(d[k], list) else bool(d[k])
+        elif j < 0.16:
+            d[k] = R.make_value(("gen", [1, 2]))
+        elif j < 0.2:
+            d[k] = R.make_value(rng.choice([("gio", [1]), ("io", [2, 3]), ("substr", "ss"), ("plain", 1.5), ("ar",)]))
+    return d
+
+
+def part_sets(ctx, jinja2):
+    from jinja2 import meta
+    from .gen_templates import TGen
+    rng = ctx.rng
+    for i in range(ctx.size(450, 4000)):
+        g = TGen(rng, depth=rng.randint(1, 3))
+        ts, main = g.template_set()
+        for _ in range(rng.randint(0, 2)):
+            sn = rng.choice(SNIPPETS)
+            if "{% block" in ts[main] and ("{% include" in sn or "{% macro" in sn):
+                tgt = rng.choice([k for k in ts if k != main] or [main])
+            else:
+                tgt = rng.choice(list(ts))
+            if "{% extends" in ts[tgt] or (tgt == "inc1.html" and "inc1.html" in sn):
+                continue
+            ts[tgt] = ts[tgt] + sn if rng.random() < 0.5 else sn + ts[tgt]
+        # every statement under every kind of container
+        for name in list(ts):
+            if rng.random() < 0.3 and "{% block" not in ts[name] and "{% extends" not in ts[name]:
+                ts[name] = wrap(rng, ts[name])
+        cfg = SET_CONFIGS[i % len(SET_CONFIGS)]
+        lookups, requests = [], []
+        env = set_env(jinja2, cfg, ts, lookups, requests)
+        globals_ = set(env.globals)
+        und, ref, bad = {}, {}, False
+        for name, src in ts.items():
+            try:
+                ast = env.parse(src)
+                und[name] = set(meta.find_undeclared_variables(ast))
+                ref[name] = list(meta.find_referenced_templates(ast))
+            except Exception as e:  # noqa
+                bad = True
+        if bad:
+            ctx.count("sets_syntax_error")
+            continue
+        uses_extends = any("{% extends" in s_ for s_ in ts.values())
+        all_und = set().union(*und.values())
+        all_ref = [r for v in ref.values() for r in v]
+        datas = [exotic(rng, g.data()) for _ in range(2)]
+        for k, d in enumerate(datas):
+            if rng.random() < 0.5:
+                # (never a template that includes `dyn` itself: unbounded self-inclusion only burns time)
+                d["dyn"] = rng.choice([t for t in ts if "dyn" not in ts[t]] + ["nope.html", 3]
+                                      + ([["inc1.html"]] if "dyn" not in ts.get("inc1.html", "") else []))
+            del lookups[:], requests[:]
+            try:
+                env.get_template(main).render(**d)
+                status = "ok"
+            except RecursionError:
+                status = "Fuel"
+            except Exception as e:  # noqa
+                status = type(e).__name__
+            seen = sorted(set(lookups), key=repr)
+            asked = [r for r in requests if isinstance(r, str)]
+            if asked[:1] == [main]:
+                asked = asked[1:]       # the harness's own get_template(main)
+            case = {"templates": ts, "main": main, "data": {a: repr(b) for a, b in d.items()}, "config": cfg,
+                    "render": k, "kind": "set"}
+            bound = all_und and len({n for _, n in seen}) < len(all_und | {n for _, n in seen}) or True
+            ctx.case(key=("set", json.dumps(ts, sort_keys=True), repr(sorted(case["data"].items())), cfg, k) if seen and len(ts) > 1 else None,
+                     sample={"templates": ts, "config": cfg, "lookups": [list(x) for x in seen][:12], "requests": asked}
+                     if len(ts) > 2 and i % 50 == 3 and k == 0 else None)
+            ctx.count("sets_" + cfg + "_" + ("ok" if status == "ok" else "error"))
+            extra = [(t, n) for t, n in seen if n not in globals_ and n not in (all_und if uses_extends or t not in und else und[t])]
+            if extra:
+                ctx.reject(case, f"context lookups {extra} (template, name) are not reported by find_undeclared_variables "
+                                 f"{ {t: sorted(v) for t, v in und.items()} }", None)
+                continue
+            missing = [r for r in asked if r not in all_ref]
+            if missing and None not in all_ref:
+                ctx.reject(case, f"templates {missing} were requested from the loader but find_referenced_templates "
+                                 f"reports {ref}", None)
+                continue
+            ctx.validated()
+
+
+def part_extended(ctx, jinja2):
+    """oracle only: the extended C03 syntax and render arguments of many kinds"""
+    from jinja2 import meta
+    resolves = []
+    env = G.make_env(jinja2, resolves=resolves)
+    env.add_extension("jinja2.ext.loopcontrols")
+    globals_ = sorted(env.globals)
+    rng = ctx.rng
+    for i in range(ctx.size(800, 6000)):
+        g = R.EGen(rng, size=rng.randint(3, ctx.size(14, 22)))
+        p = g.program()
+        ds = g.dspec()
+        if i % 3 == 0:
+            # identifiers the compiler treats specially in SOME positions, used as ordinary variables
+            m = dict(zip(rng.sample(["a", "b", "c", "n"], 2), rng.sample(SPECIAL, 2)))
+            p = R.rename2(p, m)
+            ds = {m.get(x, x): v for x, v in ds.items()}
+        src = R.p2_src(p)
+        # C32 is indifferent to the C03 read-before-write finding: all names may be supplied
+        try:
+            real_und = sorted(meta.find_undeclared_variables(env.parse(src)))
+            t = env.from_string(src)
+        except Exception as e:  # noqa
+            ctx.count("ext_compile_" + type(e).__name__)
+            continue
+        if R.Ref(R.make_data(ds)).render(p)[0] == "skip":
+            ctx.count("ext_skipped_budget")      # the text explodes (a loop doubling a string): not rendered
+            continue
+        del resolves[:]
+        try:
+            t.render(**R.make_data(ds))
+            status = "ok"
+        except Exception as e:  # noqa
+            status = type(e).__name__
+        seen = sorted(set(resolves))
+        ctx.case(key=("ext", src, repr(sorted(ds.items()))) if seen else None)
+        ctx.count("ext_render_" + ("ok" if status == "ok" else "error"))
+        extra = [x for x in seen if x not in real_und and x not in globals_]
+        if extra:
+            ctx.reject({"src": src, "dspec_repr": repr(ds), "kind": "ext"},
+                       f"context lookups {extra} are not reported by find_undeclared_variables {real_und}", None)
+        else:
+            ctx.validated()
+
 
 TEMPLATES = {"a": "{% macro z() %}Za{% endmacro %}A", "b": "{% macro z() %}Zb{% endmacro %}B",
              "c": "{% macro z() %}Zc{% endmacro %}C"}
@@ -279,9 +520,35 @@ def run(ctx):
         "the model keeps the resolve log of completed renders; renders ending in an error are judged by the oracle (inclusion) only",
         "template names are strings; loader requests are recorded in get_source with the template cache disabled",
     ]
+    import time
+    t0 = time.time()
+    ph = ctx.extra.setdefault("phase_seconds", {})
     ctx.proof("C32")
+    ph["proof"] = round(time.time() - t0, 1)
     part_undeclared(ctx, jinja2)
+    ph["undeclared"] = round(time.time() - t0, 1)
     part_referenced(ctx, jinja2)
+    ph["referenced"] = round(time.time() - t0, 1)
+    import resource
+    soft, hard = resource.getrlimit(resource.RLIMIT_AS)
+    try:
+        # generated programs can double a string in nested loops: a MemoryError (an ordinary failed render) instead
+        # of the kernel's OOM killer, should one get past the size vetting
+        with open("/proc/self/statm") as f:
+            cur = int(f.read().split()[0]) * resource.getpagesize()
+        lim = cur + (4 << 30)
+        resource.setrlimit(resource.RLIMIT_AS, (lim if hard == resource.RLIM_INFINITY else min(lim, hard), hard))
+        part_extended(ctx, jinja2)
+        ph["extended"] = round(time.time() - t0, 1)
+        import warnings
+        with warnings.catch_warnings():
+            # {{ loop }} in async mode: LoopContext.__repr__ reads the async property `length` without awaiting it
+            # (cosmetic, outside this property; reported to the coordinator)
+            warnings.filterwarnings("ignore", message="coroutine .* was never awaited", category=RuntimeWarning)
+            part_sets(ctx, jinja2)
+        ph["sets"] = round(time.time() - t0, 1)
+    finally:
+        resource.setrlimit(resource.RLIMIT_AS, (soft, hard))
 
 
 def replay(ctx, data):
@@ -291,6 +558,54 @@ def replay(ctx, data):
         print("replay: this file names a broken theorem / correspondence, not an input:", data.get("broken"))
         return run(ctx)
     from jinja2 import meta, nodes
+    if case.get("kind") == "set":
+        import ast as pyast
+        lookups, requests = [], []
+        ts = case["templates"]
+        env = set_env(jinja2, case["config"], ts, lookups, requests)
+        d = {}
+        for k, v in case["data"].items():
+            try:
+                d[k] = pyast.literal_eval(v)
+            except Exception:  # noqa
+                d[k] = R.make_value(("markup", "<m>")) if v.startswith("Markup") else R.make_value(("gen", [1, 2]))
+        und = {n: sorted(meta.find_undeclared_variables(env.parse(s_))) for n, s_ in ts.items()}
+        ref = {n: list(meta.find_referenced_templates(env.parse(s_))) for n, s_ in ts.items()}
+        try:
+            env.get_template(case["main"]).render(**d)
+            status = "ok"
+        except Exception as e:  # noqa
+            status = type(e).__name__
+        print("templates:", ts, "\ndata:", d, "\nundeclared:", und, "\nreferenced:", ref, "\nlookups:", sorted(set(lookups)),
+              "\nrequests:", requests, status)
+        uses_extends = any("{% extends" in s_ for s_ in ts.values())
+        all_und = set().union(*map(set, und.values()))
+        extra = [(t, n) for t, n in set(lookups) if n not in env.globals and n not in (all_und if uses_extends or t not in und else und[t])]
+        all_ref = [r for v in ref.values() for r in v]
+        missing = [r for r in requests[1:] if isinstance(r, str) and r not in all_ref]
+        if extra:
+            ctx.reject(case, f"context lookups {extra} are not reported by find_undeclared_variables {und}", None)
+        elif missing and None not in all_ref:
+            ctx.reject(case, f"templates {missing} requested but not reported {ref}", None)
+        return
+    if case.get("kind") == "ext":
+        import ast as pyast
+        resolves = []
+        env = G.make_env(jinja2, resolves=resolves)
+        env.add_extension("jinja2.ext.loopcontrols")
+        src, ds = case["src"], pyast.literal_eval(case["dspec_repr"])
+        real_und = sorted(meta.find_undeclared_variables(env.parse(src)))
+        try:
+            env.from_string(src).render(**R.make_data(ds))
+            status = "ok"
+        except Exception as e:  # noqa
+            status = type(e).__name__
+        seen = sorted(set(resolves))
+        print("template:", src, "\ndata:", ds, "\nreported:", real_und, "\nlookups:", seen, status)
+        extra = [x for x in seen if x not in real_und and x not in env.globals]
+        if extra:
+            ctx.reject(case, f"context lookups {extra} are not reported by find_undeclared_variables {real_und}", None)
+        return
     src, d = case["src"], case.get("data", {})
     if "kind" in case:
         requests = []
